@@ -245,7 +245,13 @@ fn run(rng: &mut Rng, idx: u64, tier: Tier) -> CaseOut {
     }
     let f = if loop_free_family {
         let g = gen_formula(rng, &fopts, &net.names);
-        let pat = hyb(Hyb::Bind, "w1", None, un(Un::AG, un(Un::EF, var("w1"))));
+        // the attractor pattern, or formulae that merely resemble one of the two patterns (all self-loop-insensitive)
+        let pat = match rng.below(5) {
+            0 | 1 => hyb(Hyb::Bind, "w1", None, un(Un::AG, un(Un::EF, var("w1")))),
+            2 => hyb(Hyb::Bind, "w1", None, un(Un::AG, var("w1"))),
+            3 => hyb(Hyb::Bind, "w1", None, un(Un::EF, var("w1"))),
+            _ => hyb(Hyb::Bind, "w1", None, un(Un::AG, un(Un::EF, bin(Bin::And, var("w1"), var("w1"))))),
+        };
         match rng.below(4) {
             0 => pat,
             1 => un(*rng.pick(&[Un::EF, Un::AG, Un::Not]), pat),
@@ -290,6 +296,30 @@ fn run(rng: &mut Rng, idx: u64, tier: Tier) -> CaseOut {
     };
     let events = drain_events(&mut out);
     let took_shortcut = events.iter().any(|e| matches!(e, Event::Pattern { .. }));
+    // (1b) plain formulae without EX/AX/AF/EG/AU/EW (patterns and near-misses alike): the self-loop-free entry point
+    // must return what standard evaluation returns
+    if loop_free_family {
+        let standard = run_ep(Ep::FormulaDirty, &text, &sys, &ctx);
+        let unsafe_res = call(|| mc::model_check_formula_unsafe_ex(&text, &sys.graph));
+        match (standard, unsafe_res) {
+            (Call::Ok(a), Call::Ok(b)) => {
+                out.count("unsafe_ex_comparisons");
+                if a != b {
+                    violate_diff(&mut out, &world, &sys, "self-loop-free entry point differs on a self-loop-insensitive formula", (&text, &a), (&text, &b), vec![("second", J::s("model_check_formula_unsafe_ex"))]);
+                    return out;
+                }
+            }
+            (_, Call::Panic(p)) | (Call::Panic(p), _) => {
+                out.violate(&crate::libg::panic_signature(&p), format!("panic on `{text}`: {p}"), case_json(&world, &[text.clone()], vec![]));
+                return out;
+            }
+            (_, Call::Err(e)) | (Call::Err(e), _) => {
+                out.violate("error on a valid closed formula", format!("Err({e}) on `{text}`"), case_json(&world, &[text.clone()], vec![]));
+                return out;
+            }
+        }
+        let _ = drain_events(&mut out);
+    }
     if npatterns == 0 {
         return out;
     }
